@@ -68,7 +68,16 @@ func genC06Tree(r *RNG) *N {
 	}
 	cfg := GenCfg{Budget: r.Range(4, 30), Calls: r.Chance(1, 2), Closures: true, Maps: true, AllocOnly: true, SliceCall: true}
 	g := NewGen(r, cfg)
-	switch r.Intn(7) {
+	switch r.Intn(10) {
+	case 7:
+		// the last allocations of the run are ranges, nothing allocates after them
+		return nBin("+", nLen(g.rangeExpr()), nBin("*", nLen(g.rangeExpr()), nLen(g.rangeExpr())))
+	case 8:
+		// an allocating operand on the left of a connective whose right operand is a literal
+		l := nBin(r.Pick([]string{">=", "<", "!="}), nLen(g.Seq()), nInt(r.Range(0, 3)))
+		return nBin(r.Pick([]string{"or", "and", "||", "&&"}), l, nBool(r.Chance(1, 2)))
+	case 9:
+		return nCond(nBin(">", nLen(g.rangeExpr()), nInt(r.Range(0, 4))), nLen(g.Seq()), nLen(g.rangeExpr()))
 	case 5:
 		// an allocating operand next to a rewrite candidate: each allocation must be
 		// charged once whatever the optimiser does with the membership test
